@@ -132,7 +132,7 @@ type c06GateExp struct {
 	log      [][]int
 	inExport bool
 	changed  int
-	gate     chan bool
+	gate     chan string // outcome of the export in progress: g+ nil, g- error, gc context.Canceled, gd context.DeadlineExceeded
 }
 
 func (e *c06GateExp) Export(ctx context.Context, recs []Record) error {
@@ -150,12 +150,24 @@ func (e *c06GateExp) Export(ctx context.Context, recs []Record) error {
 	e.changed += bad
 	e.inExport = true
 	e.mu.Unlock()
-	ok := <-e.gate
+	res := <-e.gate
 	e.mu.Lock()
 	e.inExport = false
 	e.mu.Unlock()
-	if !ok {
+	return c06ExportErr(res)
+}
+
+// c06ExportErr maps a scripted outcome to the exporter's result. The context errors are what an exporter returns
+// when the per-chunk deadline set by timeoutExporter expires or its context is cancelled: the processor must go on
+// with the remaining chunks all the same (each chunk gets a fresh deadline).
+func c06ExportErr(res string) error {
+	switch res {
+	case "g-":
 		return errors.New("scripted export error")
+	case "gc":
+		return context.Canceled
+	case "gd":
+		return fmt.Errorf("scripted exporter: %w", context.DeadlineExceeded)
 	}
 	return nil
 }
@@ -256,7 +268,7 @@ func c06Res(err error) string {
 
 // c06RunSched returns the effective configuration and one observation per op.
 func c06RunSched(capQ, batch, buf int, ops []string, win time.Duration) (cfg [3]int, out []string) {
-	exp := &c06GateExp{gate: make(chan bool)}
+	exp := &c06GateExp{gate: make(chan string)}
 	bp := NewBatchProcessor(exp, WithMaxQueueSize(capQ), WithExportMaxBatchSize(batch), WithExportBufferSize(buf),
 		WithExportInterval(time.Hour), WithExportTimeout(time.Hour))
 	cfg = [3]int{bp.q.cap, bp.batchSize, cap(bp.exporter.input)}
@@ -290,12 +302,12 @@ func c06RunSched(capQ, batch, buf int, ops []string, win time.Duration) (cfg [3]
 			op = op[1:]
 		}
 		switch {
-		case op == "g+" || op == "g-":
+		case op == "g+" || op == "g-" || op == "gc" || op == "gd":
 			exp.mu.Lock()
 			in := exp.inExport
 			exp.mu.Unlock()
 			if in {
-				exp.gate <- (op == "g+")
+				exp.gate <- op
 			}
 		case op[0] == 's':
 			k, _ := strconv.Atoi(op[1:])
@@ -363,7 +375,7 @@ func c06RunSched(capQ, batch, buf int, ops []string, win time.Duration) (cfg [3]
 	go func() {
 		for {
 			select {
-			case exp.gate <- true:
+			case exp.gate <- "g+":
 			case <-done:
 				return
 			}
@@ -394,6 +406,7 @@ func c06RunSched(capQ, batch, buf int, ops []string, win time.Duration) (cfg [3]
 func c06GenOps(r *vRand, n int) []string {
 	ops := []string{}
 	nextID, nextF, nextS := 1, 1, 1
+	bad := func() string { return []string{"g-", "g-", "gc", "gd"}[r.Intn(4)] }
 	gates := func(k int, sdAt int) {
 		for j := 0; j < k; j++ {
 			if j == sdAt {
@@ -401,7 +414,7 @@ func c06GenOps(r *vRand, n int) []string {
 				nextS++
 			}
 			if r.Intn(7) == 0 {
-				ops = append(ops, "g-")
+				ops = append(ops, bad())
 			} else {
 				ops = append(ops, "g+")
 			}
@@ -415,7 +428,7 @@ func c06GenOps(r *vRand, n int) []string {
 		case k < 16:
 			ops = append(ops, "g+")
 		case k < 17:
-			ops = append(ops, "g-")
+			ops = append(ops, bad())
 		case k < 21:
 			ops = append(ops, "f"+strconv.Itoa(nextF))
 			nextF++
@@ -448,6 +461,39 @@ func c06GenOps(r *vRand, n int) []string {
 	return ops
 }
 
+// c06GenBacklog builds a backlog of more than two batches behind a gated exporter and a full export buffer, then
+// drains it at once with Shutdown (deterministic: the poll goroutine is stopped first, the flushed slice is one
+// request of several chunks) or ForceFlush (its request has several chunks whichever of poll loop / ForceFlush
+// dequeues first), and lets chunks fail in every way, context errors included.
+func c06GenBacklog(r *vRand, capQ, batch, buf int) []string {
+	ops := []string{}
+	id := 1
+	n := batch*(1+buf) + capQ // first batch in the exporter, `buf` batches buffered, the queue full
+	if r.Intn(3) == 0 {
+		n += 1 + r.Intn(3) // and overflowing
+	}
+	for ; id <= n; id++ {
+		ops = append(ops, "e"+strconv.Itoa(id))
+	}
+	if r.Intn(3) == 0 {
+		ops = append(ops, "f1")
+	} else {
+		ops = append(ops, "s1")
+	}
+	for j := 0; j < n+3; j++ {
+		switch r.Intn(4) {
+		case 0:
+			ops = append(ops, []string{"g-", "gc", "gd", "gd"}[r.Intn(4)])
+		default:
+			ops = append(ops, "g+")
+		}
+	}
+	if ops[len(ops)-n-3+buf+1] == "g+" { // make sure an early chunk of the big request fails with a context error
+		ops[len(ops)-n-3+buf+1] = []string{"gc", "gd"}[r.Intn(2)]
+	}
+	return ops
+}
+
 func TestVerifC06Sched(t *testing.T) {
 	out := vOpen(t)
 	defer out.Close()
@@ -472,6 +518,11 @@ func TestVerifC06Sched(t *testing.T) {
 		r := &vRand{s: vSeed()}
 		n := vN(300)
 		for i := 0; i < n; i++ {
+			if i%5 == 4 {
+				c, b, u := 4+r.Intn(3), 1+r.Intn(2), 1+r.Intn(2)
+				jobs = append(jobs, job{"backlog", c, b, u, c06GenBacklog(r, c, b, u)})
+				continue
+			}
 			jobs = append(jobs, job{"rnd", 1 + r.Intn(5), 1 + r.Intn(4), 1 + r.Intn(3), c06GenOps(r, 3+r.Intn(12))})
 		}
 	}
@@ -545,6 +596,7 @@ func (e *c06HistExp) Export(ctx context.Context, recs []Record) error {
 	e.rmu.Lock()
 	d := e.r.Intn(4)
 	fail := e.failEv > 0 && e.r.Intn(e.failEv) == 0
+	kind := []string{"g-", "gc", "gd"}[e.r.Intn(3)]
 	e.rmu.Unlock()
 	if d == 0 {
 		time.Sleep(time.Duration(50+e.r.Intn(200)) * time.Microsecond)
@@ -553,7 +605,7 @@ func (e *c06HistExp) Export(ctx context.Context, recs []Record) error {
 	}
 	e.stamp("XE")
 	if fail {
-		return errors.New("scripted")
+		return c06ExportErr(kind)
 	}
 	return nil
 }
